@@ -463,10 +463,13 @@ def register_numpy():
             except (TypeError, UnicodeDecodeError):
                 return normalize_object(x)
         else:
+            # Hash the elements in logical (C) order. In memory order, two different
+            # arrays that share the same buffer, such as a C-ordered array and the
+            # F-ordered array with the same bytes, would get the same token.
             try:
-                data = hash_buffer_hex(x.ravel(order="K").view("i1"))
+                data = hash_buffer_hex(x.ravel(order="C").view("i1"))
             except (BufferError, AttributeError, ValueError):
-                data = hash_buffer_hex(x.copy().ravel(order="K").view("i1"))
+                data = hash_buffer_hex(x.copy(order="C").ravel().view("i1"))
         return (data, x.dtype, x.shape)
 
     @normalize_token.register(np.memmap)
